@@ -632,12 +632,18 @@ int _vnadata_load_npd(vnadata_internal_t *vdip, FILE *fp, const char *filename)
 		goto out;
 	    }
 	    if (z0_vector == NULL) {
-		if ((z0_vector = calloc(ports,
+		/*
+		 * A Zin vector of a file with zero ports is 1 x 0, which
+		 * vnadata counts as one port: leave room for (and default)
+		 * the one entry vnadata_set_z0_vector will read.
+		 */
+		if ((z0_vector = calloc(MAX(ports, 1),
 				sizeof(double complex))) == NULL) {
 		    _vnadata_error(vdip, VNAERR_SYSTEM,
 			    "calloc: %s", strerror(errno));
 		    goto out;
 		}
+		z0_vector[0] = VNADATA_DEFAULT_Z0;
 	    }
 	    for (int port = 0; port < ports; ++port) {
 		double re = 0.0, im = 0.0;
@@ -861,11 +867,13 @@ int _vnadata_load_npd(vnadata_internal_t *vdip, FILE *fp, const char *filename)
 	    goto out;
 	}
     } else if (fz0) {
-	if ((z0_vector = calloc(ports, sizeof(double complex))) == NULL) {
+	if ((z0_vector = calloc(MAX(ports, 1),
+			sizeof(double complex))) == NULL) {
 	    _vnadata_error(vdip, VNAERR_SYSTEM,
 		    "calloc: %s", strerror(errno));
 	    goto out;
 	}
+	z0_vector[0] = VNADATA_DEFAULT_Z0;
     }
 
     /*
